@@ -8,25 +8,6 @@ the original bytes by the reader's unescaper, contains none of the ROR2 structur
 empty-string marker `''` or with an absent value). -/
 namespace Restli.Escape
 
-/-- the regenerated tables of one module generation -/
-structure Tables where
-  pathSafe : List UInt8
-  querySafe : List UInt8
-  headerEscapes : List (UInt8 × Bytes)
-
-def tablesV2 : Tables := ⟨Gen.pathSafe, Gen.querySafe, Gen.headerEscapes⟩
-def tablesRoot : Tables := ⟨GenRoot.pathSafe, GenRoot.querySafe, GenRoot.headerEscapes⟩
-
-/-- the side conditions the round trip needs, as one decidable predicate over the tables -/
-def TablesOk (t : Tables) : Prop :=
-  t.pathSafe.contains 37 = false ∧ t.querySafe.contains 37 = false ∧ t.querySafe.contains 43 = false ∧
-  (∀ r ∈ reserved, t.pathSafe.contains r = false) ∧ (∀ r ∈ reserved, t.querySafe.contains r = false) ∧
-  (∀ p ∈ t.headerEscapes, goodPair p = true) ∧ (t.headerEscapes.lookup 37).isSome = true ∧
-  (∀ r ∈ reserved, (t.headerEscapes.lookup r).isSome = true) ∧
-  (∀ p ∈ t.headerEscapes, ∀ c ∈ p.2, c ∉ reserved) ∧ (∀ p ∈ t.headerEscapes, p.2 ≠ [])
-
-instance (t : Tables) : Decidable (TablesOk t) := by unfold TablesOk; infer_instance
-
 /-- the tables currently in `/repo` (both modules) satisfy them — re-decided on every run -/
 theorem c01_tables_ok_v2 : TablesOk tablesV2 := by decide
 theorem c01_tables_ok_root : TablesOk tablesRoot := by decide
